@@ -143,6 +143,24 @@ def traceRun (toks : List String) : Option (Sys × Abs) :=
   toks.foldlM (fun (p : Sys × Abs) tok => (parseEv p.1 tok).map fun ev => (p.1.stepG ev, p.2.step ev))
     (Sys.init, Abs.init)
 
+def parseEvM (s : SysM) (tok : String) : Option EvM :=
+  match tok.splitOn ":" with
+  | ["a", docs] => (if docs == "-" then some [] else (docs.splitOn ",").mapM parseDocRec).map EvM.addSeg
+  | ["d", k] => k.toNat?.map EvM.delete
+  | ["c"] => some .commit
+  | ["r"] => some .rollback
+  | ["x"] => some .deleteAll
+  | ["mu"] => some (.startMerge (s.st.uncommitted.map (·.segId)))
+  | ["mc"] => some (.startMerge (s.st.committed.map (·.segId)))
+  | ["mu1"] => some (.startMerge ((s.st.uncommitted.map (·.segId)).drop 1))
+  | ["mc1"] => some (.startMerge ((s.st.committed.map (·.segId)).drop 1))
+  | ["e", i] => i.toNat?.map EvM.endMerge
+  | _ => none
+
+def traceRunM (toks : List String) : Option (SysM × Abs) :=
+  toks.foldlM (fun (p : SysM × Abs) tok => (parseEvM p.1 tok).map fun ev => (p.1.step ev, p.2.step ev.toEv))
+    (SysM.init, Abs.init)
+
 def handle : List String → String
   | ["dump", s] =>
     match parseSeg s with
@@ -174,6 +192,13 @@ def handle : List String → String
       "pub=" ++ showNatList (sortNat (publishedUids s.st)) ++ "/pend=" ++
         showNatList (sortNat ((pendDocs s.st).map (·.uid))) ++ "/abs=" ++
         showNatList (sortNat (a.pub.map (·.uid))) ++ "/abspend=" ++ showNatList (sortNat (a.pend.map (·.uid)))
+    | none => "bad-op"
+  | "tracem" :: toks =>
+    match traceRunM toks with
+    | some (s, a) =>
+      "pub=" ++ showNatList (sortNat (publishedUids s.st)) ++ "/pend=" ++
+        showNatList (sortNat ((pendDocs s.st).map (·.uid))) ++ "/abs=" ++
+        showNatList (sortNat (a.pub.map (·.uid))) ++ "/running=" ++ toString s.running.length
     | none => "bad-op"
   | "sm" :: evs =>
     match smRun evs with
